@@ -166,7 +166,11 @@ class QGen:
             self.feat("param.context")
             self._numeric_prefix = False
         elif c == "sub":
-            q = r.choice(["one", "one/add-2", "lit-s/cat-t", "num-3/mulf-2", "lit-a/let-v1-x/getvar-v1"])
+            pool = ["one", "one/add-2", "lit-s/cat-t", "num-3/mulf-2", "lit-a/let-v1-x/getvar-v1"]
+            if self.allow_fail and r.random() < 0.25:
+                pool = ["one/boom", "nosuchcmd", "one/add-x", "needs"]
+                self.feat("sub_evaluation.failing")
+            q = r.choice(pool)
             a = [encode_token(q)]
             self.feat("param.context")
             self.feat("sub_evaluation")
